@@ -346,12 +346,27 @@ def check(case):
         ok = _check_implicit(case, res, pre, cls, fname) if implicit else _check_explicit(case, res, pre, cls, fname)
     finally:
         linecache.cache.pop(fname, None)
+        _bound_memory()
     if not ok:
         return res
     nvars = len(case['ins']) + len(case.get('states', []))
     res.nontrivial = nvars >= 2 and any(_size(o['shape']) > 1 and X.depth(o['ast']) >= 2 for o in case['outs'])
     res.classes = cls + ['judged']
     return res
+
+
+_NCALLS = [0]
+
+
+def _bound_memory():
+    """Compiled jax executables accumulate per process: drop them every 60 cases (does not affect any verdict)."""
+    import sys
+    _NCALLS[0] += 1
+    if _NCALLS[0] % 60 == 0 and 'jax' in sys.modules:
+        import gc
+        import jax
+        jax.clear_caches()
+        gc.collect()
 
 
 def _raised(case, res, pre, cls, e, where):
@@ -649,8 +664,8 @@ def strategy(tier, kinds=None):
 
 
 def units(tier, seed):
-    n = 4 if tier == 'quick' else 32
-    per = 96 if tier == 'quick' else 600
+    n = 4 if tier == 'quick' else 64
+    per = 84 if tier == 'quick' else 300
     return [{'kind': 'random', 'n': per, 'seed': core.shard_seed(seed, ID, i)} for i in range(n)]
 
 
